@@ -94,7 +94,13 @@ static void thread_in_arena(State& S, int j) {
       }
       // the default heap of this thread must stay outside the exclusive arena
       for (int i = 0; i < 20; i++) { void* q = mi_malloc(500); if (q && excl && (uintptr_t)q >= lo && (uintptr_t)q < hi) { bad = true; badp = q; } mi_free(q); }
-      mi_heap_delete(h);   // blocks migrate to this thread's backing heap; they stay where they are (inside the arena)
+      mi_heap_delete(h);   // the heap goes away, its live blocks stay where they are (inside the arena)
+      // ... but its pages must not become pages of this thread's default heap: allocations of the same size classes must still come from outside the exclusive arena
+      if (excl) for (size_t i = 0; i < out.size(); i++) {
+        void* q = mi_malloc(out[i].n);
+        if (q && (uintptr_t)q >= lo && (uintptr_t)q < hi) { bad = true; badp = q; }
+        mi_free(q);
+      }
     });
     t.join();
   } catch (const std::system_error& e) { vf_trip("harness", "", "cannot create a thread: %s", e.what()); }
